@@ -97,10 +97,14 @@ type Verdict struct {
 	Wall    time.Duration
 }
 
-// bound is the wall-clock limit of a history: 2 s + 1 ms per byte.
+// bound is the wall-clock limit of a history: 5 s + 2 ms per byte.  It is the runner's budget for
+// telling a hang from slow progress, not part of the property: polynomial time is bounded time, and
+// the input families with super-linear cost are capped in size (see the depth cases).
 func bound(h *History) time.Duration {
-	return 2*time.Second + time.Duration(h.Bytes())*time.Millisecond
+	return 5*time.Second + 2*time.Duration(h.Bytes())*time.Millisecond
 }
+
+const boundText = "5 s + 2 ms/byte"
 
 // isolated runs histories one at a time in a child, replacing the child when it dies or hangs.
 type isolated struct {
@@ -155,6 +159,6 @@ func (w *isolated) run(h *History) Verdict {
 		w.p.kill()
 		msg := w.p.stderr.String()
 		w.p = nil
-		return Verdict{Crashed: true, Kind: "timeout", Msg: "timeout: no answer within " + b.String() + " (2 s + 1 ms/byte) " + msg, Wall: time.Since(t0)}
+		return Verdict{Crashed: true, Kind: "timeout", Msg: "timeout: no answer within " + b.String() + " (" + boundText + ") " + msg, Wall: time.Since(t0)}
 	}
 }
